@@ -10,7 +10,7 @@
    byte-slice lists len = 0; for item buffers (whose Get returns a slice of
    the requested length that the writer fills by index) len = requested
    length and every visible slot is the zero Item. *)
-From Coq Require Import List NArith ZArith Bool Lia.
+From Coq Require Import List NArith ZArith Bool.
 From Cfg Require Import Model.Pool.
 Open Scope N_scope.
 
